@@ -22,7 +22,7 @@ export function create(groupList, path, data, updateMode, extra) {
   // show once the child applied them)
   const using = {}
   if (extra && extra.using) using.c = slotComp
-  if (groupList['comp/k']) using.k = space.defineComponent({ is: 'k', properties: { p: null, val: null }, template: { content: groupList['comp/k'], groupList } })
+  if (groupList['comp/k']) using.k = space.defineComponent({ is: 'k', properties: { p: null, val: null, style: null }, template: { content: groupList['comp/k'], groupList } })
   const def = space.defineComponent({
     is: 'root' + counter,
     using: Object.keys(using).length ? using : undefined,
